@@ -170,6 +170,142 @@ class TermPeerWorld(PeerWorld):
         return 'closed=%s refused=%s' % (self.r_closed(), sorted(self.refused))
 
 
+# ---------------------------------------------------------------------------
+# the agent level: Agent.shutdown() with several contacts
+
+def run_agent_shutdown(params, known):
+    '''A real tcpcl Agent with 1-3 contacts (outgoing and accepted), each to a real
+    ContactHandler in its own process.  Some contacts carry a two-segment transfer in one
+    or the other direction.  The user calls Agent.shutdown() after k scheduler steps, for every
+    k up to the end of the run, under every rotation-fair schedule given by a priority order of
+    the processes.  At the end every transfer that had started must have completed and been
+    delivered intact, every queued bundle reported, every connection closed on both sides, each
+    contact announced closed once, and the agent stopped exactly once - and not before.'''
+    import itertools
+    from ..agent_world import AgentWorld, AGENT_PATH, AGENT_IFACE, CONTACT_IFACE
+    PPATH = '/org/ietf/dtn/tcpcl/Contact0'
+    violations = []
+    kinds = set()
+    count = 0
+    keys = set()
+    (part, parts) = (params['part'], params['parts'])
+    data_x = bytes(range(0xa0, 0xa5))
+    data_p = bytes(range(0xb0, 0xb6))
+
+    def viol(kind, sig, detail, case):
+        key = (kind, tuple(sorted(sig.items())))
+        if key in kinds:
+            return
+        kinds.add(key)
+        v = Violation(PROP, 'agent-shutdown', kind, sig, '%r: %s' % (case, detail)).as_dict()
+        v['case'] = case
+        violations.append(v)
+
+    configs = []
+    for contacts in (['out'], ['in'], ['out', 'out'], ['out', 'in'], ['in', 'in'], ['out', 'in', 'out']):
+        n = len(contacts)
+        # workloads: per contact none / X sends / the peer sends; at least one idle contact when n > 1
+        for load in itertools.product(('idle', 'x-sends', 'p-sends'), repeat=n):
+            if n > 1 and 'idle' not in load:
+                continue
+            if n == 3 and load.count('idle') != 1:
+                continue
+            configs.append((contacts, load))
+    idx = -1
+    for (contacts, load) in configs:
+        names = ['X'] + ['P%d' % i for i in range(len(contacts))]
+        orders = [names[k:] + names[:k] for k in range(len(names))] + [list(reversed(names))]
+        for order in orders:
+            idx += 1
+            if idx % parts != part:
+                continue
+            k = 0
+            while True:
+                case = dict(contacts=contacts, load=list(load), order=order, shutdown_after=k)
+                w = AgentWorld(dict(contacts=contacts))
+                w.run_policy(order)                 # all sessions established
+                paths = [str(p) for p in w.x_contacts()[1]]
+                if len(paths) != len(contacts):
+                    viol('contact-missing-after-setup', dict(), repr(paths), case)
+                    break
+                # X's contact object of contact i: outgoing ones are numbered in creation order first
+                peer_of = {}
+                for path in paths:
+                    prm = w.bus_call(w.procs['X'], path, 'get_session_parameters', iface=CONTACT_IFACE)
+                    peer_of[path] = str(prm[1]['peer_nodeid']) if prm[0] == 'ok' else None
+                by_peer = {v: kk for (kk, v) in peer_of.items()}
+                sent = []
+                for (i, what) in enumerate(load):
+                    xpath = by_peer.get('dtn://p%d/' % i)
+                    if what == 'x-sends':
+                        res = w.bus_call(w.procs['X'], xpath, 'send_bundle_data', data_x, iface=CONTACT_IFACE)
+                        sent.append(('X', xpath, 'P%d' % i, PPATH, data_x, str(res[1]) if res[0] == 'ok' else None))
+                    elif what == 'p-sends':
+                        res = w.bus_call(w.procs['P%d' % i], PPATH, 'send_bundle_data', data_p, iface=CONTACT_IFACE)
+                        sent.append(('P%d' % i, PPATH, 'X', xpath, data_p, str(res[1]) if res[0] == 'ok' else None))
+                done = 0
+                live = list(order)
+                while done < k:
+                    for (j, name) in enumerate(live):
+                        if w.step(name):
+                            live = live[j + 1:] + live[:j + 1]
+                            done += 1
+                            break
+                    else:
+                        break
+                exhausted = done < k
+                res = w.bus_call(w.procs['X'], AGENT_PATH, 'shutdown', iface=AGENT_IFACE)
+                stops_at_call = w.stops
+                w.collect(('user',))
+                try:
+                    w.run_policy(live)
+                except Exception as err:
+                    viol('run-does-not-end', dict(), str(err), case)
+                    break
+                count += 1
+                keys.add('%s/%s/%s/%d' % ('+'.join(contacts), '+'.join(load), ''.join(order), k))
+                sig = w.sig
+                if sig.escaped:
+                    viol('escaped-exception', dict(exc=sig.escaped[-1][1]), '%s: %s' % (sig.escaped[-1][1], sig.escaped[-1][2]), case)
+                if sig.marshal_errors:
+                    viol('signal-or-return-does-not-fit-signature', dict(), repr(sig.marshal_errors[-1]), case)
+                if res[0] != 'ok':
+                    viol('shutdown-call-failed', dict(), repr(res), case)
+                open_ends = [(c.name, e) for c in w.conns for e in (0, 1) if not c.closed[e]]
+                if open_ends:
+                    viol('connection-left-open-after-shutdown', dict(), repr(open_ends), case)
+                if w.stops != 1:
+                    viol('agent-stopped-%d-times' % w.stops, dict(), 'on_stop callback count %d (at the time shutdown() returned: %d)' % (w.stops, stops_at_call), case)
+                started = {}
+                finished = {}
+                for (pname, path, member, args) in sig.log:
+                    if member == 'send_bundle_started':
+                        started[(pname, path, args[0])] = True
+                    elif member == 'send_bundle_finished':
+                        finished.setdefault((pname, path, args[0]), []).append(args[2])
+                for (sp, spath, rp, rpath, data, bid) in sent:
+                    fin = finished.get((sp, spath, bid), [])
+                    if len(fin) != 1:
+                        viol('queued-bundle-not-reported-exactly-once', dict(), '%s %s id %s: %r' % (sp, spath, bid, fin), case)
+                        continue
+                    got = [args for (pn, pth, member, args) in sig.log if pn == rp and member == 'recv_bundle_finished']
+                    if started.get((sp, spath, bid)) and fin[0] != 'success':
+                        viol('started-transfer-cut-by-shutdown', dict(), '%s %s id %s finished %r' % (sp, spath, bid, fin[0]), case)
+                    if fin[0] == 'success' and not any(a[1] == len(data) and a[2] == 'success' for a in got):
+                        viol('success-without-reception', dict(), 'receiver signals %r' % (got,), case)
+                closed = [args[0] for (pn, pth, member, args) in sig.log if pn == 'X' and member == 'connection_closed']
+                if sorted(closed) != sorted(paths):
+                    viol('contacts-not-announced-closed-once', dict(), 'closed %r, contacts %r' % (closed, paths), case)
+                if exhausted:
+                    break
+                k += 1
+    kn, out_v = [], []
+    for v in violations:
+        ent = known.match(v) if known is not None else None
+        (kn if ent else out_v).append(dict(v, entry=ent) if ent else v)
+    return dict(name=params['name'], evaluations=count, nontrivial_keys=sorted(keys), violations=out_v, known=kn, samples=[])
+
+
 def build(params):
     if params.get('scripted_peer'):
         return TermPeerWorld(params)
@@ -212,6 +348,9 @@ def scenarios(tier):
             nm = 'peer/%s/%s' % (role, label)
             out.append(dict(name=nm, kind='graph', params=dict(scripted_peer=True, role=role, bundles=[hexn(9)], **opts),
                             dev_bound=0, weight=15, max_states=600000, liveness=False))
+    for part in range(8):
+        nm = 'agent-shutdown-%d/8' % (part + 1)
+        out.append(dict(name=nm, kind='enum', runner='run_agent_shutdown', params=dict(name=nm, part=part, parts=8), weight=25))
     if tier == 'thorough':
         for role in ('passive', 'active'):
             nm = 'peer/%s/two-bundles+refusal' % role
@@ -237,6 +376,7 @@ ASSUMPTIONS = [
     'terminate() before the session is established is answered with an error reply and counts as refused',
     'for close()/peer disconnect only "no half-open session, no escaped exception" is required',
     'liveness is judged on bottom SCCs of the complete state graph (weak fairness of the event loop)',
+    'agent level (enumeration, not all interleavings): 1-3 contacts, outgoing and accepted, idle or carrying one two-segment transfer either way; Agent.shutdown() after every number of scheduler steps under each rotation-fair schedule given by the cyclic priority orders of the processes and the reversed order',
     'scripted-peer graphs: a conforming peer that reads at once, acknowledges in order, sends its SESS_TERM at any point and may refuse the transfer in progress at any point; in terminal states with both SESS_TERM exchanged and nothing outstanding the endpoint must have closed by itself',
 ]
 
@@ -246,4 +386,10 @@ RULE = ('explicit-state BFS over two real ContactHandler objects with user termi
 
 
 def evidence(tier, seed, scens, results, wall_s):
-    return graph_evidence(PROP, tier, seed, scens, results, wall_s, ASSUMPTIONS, RULE)
+    graphs = [r for r in results if r and r.get('kind') == 'graph']
+    enums = [r for r in results if r and r.get('kind') == 'enum']
+    ev = graph_evidence(PROP, tier, seed, [sc for sc in scens if sc['kind'] == 'graph'], graphs, wall_s, ASSUMPTIONS, RULE)
+    cov = ev['coverage']
+    cov['evaluations'] = sum(r.get('evaluations', 0) for r in enums)
+    cov['exhaustive'] = cov['exhaustive'] and len([r for r in results if r and r.get('kind') != 'error']) == len(results)
+    return ev
